@@ -131,27 +131,32 @@ Definition spec_edge (names : list string) (sp : spec) (a b : N) : bool :=
 Definition mk_proto (names : list string) (sp : spec)
     (edges : list (N * N)) (targets : list (N * bool * bool * option N)) (actions : list (N * bool))
     (exec : list (N * bool * bool * N * bool * option N)) (tape each : bool)
-    (stop_handles : list N) (cont_stops : list (N * N)) : proto :=
+    (stop_handles : list N) (cont_stops : list (N * N)) (post : list (N * bool)) (abandons async : bool) : proto :=
   {| p_start := idx names (sp_start sp); p_abandon := idx names (sp_abandon sp);
      p_terminal := spec_terminal_n names sp; p_edges := edges; p_targets := targets; p_actions := actions;
      p_exec := exec; p_tape := tape; p_persist_each := each; p_stop_handles := stop_handles;
-     p_cont_stops := cont_stops |}.
+     p_cont_stops := cont_stops; p_post_actions := post; p_abandons := abandons; p_async := async |}.
 
-Definition ic_proto : proto := mk_proto ic_names ic_spec ic_edges ic_targets ic_actions ic_exec false false [] [].
-Definition pp_proto : proto := mk_proto pp_names pp_spec pp_edges pp_targets pp_actions pp_exec false true [] [].
+Definition ic_proto : proto :=
+  mk_proto ic_names ic_spec ic_edges ic_targets ic_actions ic_exec false false [] [] [] true false.
+Definition pp_proto : proto :=
+  mk_proto pp_names pp_spec pp_edges pp_targets pp_actions pp_exec false true [] [] [] true false.
 (* introduce: follow-ups depend on stored participants/metadata: read from the op's tape (what the service did);
    Stop of a proposal still runs handle (md.rejected); Continue of a request without recipients is an error *)
 Definition intro_proto : proto :=
   mk_proto intro_names intro_spec intro_edges intro_targets intro_actions [] true false
-           [idx_from 0%N intro_msgs "proposal"] [(idx_from 0%N intro_msgs "request", 0%N)].
+           [idx_from 0%N intro_msgs "proposal"] [(idx_from 0%N intro_msgs "request", 0%N)] [] true false.
 
-(* DID Exchange / Connection: targets carry the namespace instead of (v3, outbound) *)
+(* DID Exchange / Connection: the generated targets carry the namespace ("my" = true), put in the v3 slot of the
+   machine (these protocols have one version and no outbound handling); the generated action table lists the
+   (state, namespace) pairs after which the action event is raised; follow-ups from the tape; every state is
+   persisted; HandleInbound works in a goroutine (errors are not reported); legacy Connection never abandons *)
 Definition ns_targets (l : list (N * bool * option N)) : list (N * bool * bool * option N) :=
-  map (fun r => match r with (m, ns, x) => (m, false, ns, x) end) l.
+  map (fun r => match r with (m, ns, x) => (m, ns, false, x) end) l.
 Definition didex_proto : proto :=
-  mk_proto didex_names didex_spec didex_edges (ns_targets didex_targets) [] [] true true [] [].
+  mk_proto didex_names didex_spec didex_edges (ns_targets didex_targets) [] [] true true [] [] didex_actions true true.
 Definition legacy_proto : proto :=
-  mk_proto legacy_names legacy_spec legacy_edges (ns_targets legacy_targets) [] [] true true [] [].
+  mk_proto legacy_names legacy_spec legacy_edges (ns_targets legacy_targets) [] [] true true [] [] legacy_actions false true.
 
 (* ---- finite obligations on the generated tables (decided by vm_compute in Props.v) ---- *)
 
